@@ -72,6 +72,12 @@ fn main() {
                     println!("{:?} frames={:?}", r, n);
                 }
             }
+            "highlight-vector" => {
+                let h = marwood::syntax::ReplHighlighter::new();
+                for (t, i) in [("#(a)", 3usize), ("#(a)", 0), ("(a #(b) c)", 9), ("(a #(b) c)", 0), ("#(a (b))", 7)] {
+                    println!("{:?} @{} -> {:?} check={}", t, i, h.highlight(t, i), h.highlight_check(t, i + 1));
+                }
+            }
             other => {
                 println!("{:?}", eval_all(&mut vm, other));
             }
